@@ -186,6 +186,175 @@ class ImagesAdd(Contract):
             inputs["version"], inputs["existing"], inputs["variant"], inputs["arch"], inputs["new"], "same" if inputs["same_cs"] else "different")
 
 
+
+class ImagesAddAny(Contract):
+    """Images.add(variant, arch, image) on a manifest of ARBITRARY size: any number of variants, arches and images per cell (pyvc/anycoll.py:
+    the identity scan is verified by the witness rule, for every iteration order).  Accepted iff the arch is a known binary arch and --
+    from format 1.1 on -- NO image anywhere in the manifest agrees with the new one on all identity attributes while differing in
+    checksums; refused with ValueError otherwise, writing nothing; on success the image is added to the addressed cell and nothing else
+    is written (upper levels created only when absent)."""
+    name = "productmd.images.Images.add[manifest of arbitrary size]"
+    key = "meth:images.Images.add:any"
+
+    def __init__(self, src, T):
+        self.src, self.T = src, T
+
+    def setup(self, E):
+        from pyvc.anycoll import AnyDict, AnySet
+        m = E.instantiate(("images", "Images"))
+        ver = SV(sym.Val.VStr(z3.Const("hdr.version", sym.S)))
+        m.fields["header"].fields["version"] = ver
+        E.assume(F.valid_header(self.T, m.fields["header"]))
+        members = []
+
+        def make_image(E_, tag):
+            m0 = len(E_.path.effects)
+            im, f = _image(E_, m, "member.%s.%d" % (tag, len(members)))
+            del E_.path.effects[m0:]        # materialising a ghost member (running the real __init__) is not an effect of the code under test
+            members.append((im, f))
+            return im
+
+        def make_cell(E_, key, tag):
+            return AnySet("cell", make_image)
+
+        def make_arches(E_, key, tag):
+            return AnyDict("arches", make_cell)
+        images = AnyDict("images", make_arches)
+        m.fields["images"] = images
+        new, nf = _image(E, m, "new")
+        a = {"variant": SV(sym.Val.VStr(z3.Const("arg.variant", sym.S))), "arch": SV(sym.Val.VStr(z3.Const("arg.arch", sym.S)))}
+        return {"m": m, "images": images, "members": members, "new": new, "nf": nf, "a": a, "ver": ver, "mark": len(E.path.effects)}
+
+    def call(self, E, st):
+        return E.call(E.getattr_(st["m"], "add"), [st["a"]["variant"], st["a"]["arch"], st["new"]])
+
+    def post(self, E, st, out):
+        from pyvc.anycoll import AnyDict, AnySet
+        a, nf, T = st["a"], st["nf"], self.T
+        arch_ok = And(sym.isin(a["arch"], T.RPM_ARCHES), Not(sym.isin(a["arch"], ["src", "nosrc"])))
+        maj, mnr = version_parts(E, st["ver"])
+        enforced = Or(sym.as_bool(sym.sint(maj) > 1), And(sym.as_bool(sym.sint(maj) == 1), sym.as_bool(sym.sint(mnr) >= 1)))
+        wit = getattr(E.path, "witnesses", [])
+        fields = dict((id(im), f) for im, f in st["members"])
+
+        def clash(im):
+            f = fields[id(im)]
+            return And(same_identity(f, nf), Not(eq(f["checksums"], nf["checksums"])))
+        from pyvc.verify import _reach
+        pre = _reach(st)
+        # writes to the manifest (any_write) or to any object that existed before the call; temporaries of the callees do not count
+        writes = [w for w in E.path.effects[st["mark"]:] if w[0] == "any_write" or
+                  (w[0] in ("dict_write", "list_write", "set_write", "attr_write") and id(w[1]) in pre)]
+        if out.kind == "raise":
+            # the member the scan was left at (the innermost exit witness is an image) is the existential witness of the clash
+            ex = [x for kind, coll, x in wit if kind == "exit" and isinstance(x, Obj)]
+            some_clash = clash(ex[-1]) if ex else False
+            return {"refuses_with_ValueError": out.exc_cls is ValueError,
+                    "refuses_only_bad_arch_or_identity_clash": Or(Not(arch_ok), And(enforced, some_clash)),
+                    "refusal_changes_nothing": not writes}
+        # normal return: the arbitrary member of an arbitrary cell (the 'all' witnesses) does not clash -- i.e. no member does
+        images = st["images"]
+
+        # the scan must have covered the WHOLE manifest: an arbitrary variant key of the manifest, an arbitrary arch key of THAT variant's
+        # table, an arbitrary member of THAT cell (or an empty level on the way).  Witnesses taken from anything narrower -- one arch
+        # only, one variant only -- do not speak for every image.
+        def value_at(d, k):
+            for ent in d.known:
+                if ent[0] is k and ent[1] is True:
+                    return ent[2]
+            return None
+
+        def whole_scan():
+            coll = images
+            for kind_ in (AnyDict, AnyDict, AnySet):
+                ws = [x for kind, c_, x in wit if kind == "all" and c_ is coll]
+                if not ws or not isinstance(coll, kind_):
+                    return False, None
+                x = ws[-1]
+                if x is None:
+                    return True, None           # this level is empty: nothing below it to compare with
+                if kind_ is AnySet:
+                    return True, x
+                coll = value_at(coll, x)
+            return False, None
+        ran, wimg = whole_scan()
+        no_clash = Not(clash(wimg)) if wimg is not None else True
+        tgt = None
+        ent = getattr(images, "resolved", {}).get(id(a["variant"]))
+        if ent is not None and ent[1] is True:
+            inner = ent[2]
+            if isinstance(inner, AnyDict):
+                e2 = getattr(inner, "resolved", {}).get(id(a["arch"]))
+                tgt = e2[2] if e2 is not None and e2[1] is True else None
+            elif isinstance(inner, SymDict):
+                e2 = E.models.sd_lookup(inner, a["arch"], create=False)
+                tgt = e2.value if e2 is not None and e2.present is True else None
+        if isinstance(tgt, AnySet):
+            placed = any(x is st["new"] for x in tgt.added)
+        else:
+            placed = _members(tgt) is not None and any(x is st["new"] for x in _members(tgt))
+        # frame: the only writes are (a) the new image into the addressed cell, (b) creation of absent upper levels on the addressed chain
+        ok_writes = []
+        for w in writes:
+            if w[0] == "any_write" and isinstance(w[1], AnySet):
+                ok_writes.append(w[1] is tgt and w[3] is st["new"])
+            elif w[0] == "any_write" and isinstance(w[1], AnyDict):
+                # an absent level created on the addressed chain: images[variant] or images[variant][arch]
+                ok_writes.append(w[2] is a["variant"] if w[1] is images else (w[2] is a["arch"] and ent is not None and w[1] is ent[2]))
+            elif w[0] == "set_write":
+                ok_writes.append(w[1] is tgt)
+            else:
+                ok_writes.append(False)
+        return {"accepts_only_binary_known_arch": arch_ok,
+                "accepts_only_without_identity_clash_from_1_1": Implies(enforced, And(no_clash, ran)),
+                "image_filed_in_addressed_cell": placed,
+                "nothing_else_written": And(*ok_writes) if ok_writes else False}
+
+    def concretise(self, model, st):
+        return None
+
+    # native side (replays, bounded search): manifests with one existing image in a cell that varies (also a cell of ANOTHER variant /
+    # arch than the one addressed, and source images whose own arch differs from the tree arch they are filed under)
+    def sample_inputs(self, rng):
+        import itertools
+        attrs = [("S", "dvd", "iso", "x86_64", 1, False), ("S", "dvd", "iso", "x86_64", 2, False), ("K", "dvd", "iso", "x86_64", 1, False),
+                 ("S", "dvd", "iso", "src", 1, True)]
+        for ver in ("1.1", "1.2", "1.0"):
+            for ex, new in itertools.product(attrs, repeat=2):
+                for same_cs in (True, False):
+                    for cell in (("Server", "x86_64"), ("Client", "s390x"), ("Server", "s390x")):
+                        for arch, var in (("x86_64", "Server"), ("s390x", "Client"), ("src", "Server"), ("zzz", "Server")):
+                            yield {"version": ver, "existing": ex, "new": new, "same_cs": same_cs, "cell": cell, "arch": arch, "variant": var}
+
+    def native_eval(self, inputs):
+        mod = self.src.mods["images"]
+        mk = ImagesAdd._mk
+        m = mod.Images()
+        m.header.version = inputs["version"]
+        ex = mk(self, mod, m, inputs["existing"], {"sha256": "a"})
+        cv, ca = inputs["cell"]
+        m.images = {cv: {ca: set([ex])}}
+        new = mk(self, mod, m, inputs["new"], {"sha256": "a"} if inputs["same_cs"] else {"sha256": "b"})
+        nat = native_call(m.add, inputs["variant"], inputs["arch"], new)
+        arch_ok = inputs["arch"] in self.T.RPM_ARCHES and inputs["arch"] not in ("src", "nosrc")
+        enforced = tuple(int(x) for x in inputs["version"].split(".")) >= (1, 1)
+        clash = inputs["existing"] == inputs["new"] and not inputs["same_cs"]
+        if nat[0] == "raise":
+            return nat, {"refuses_with_ValueError": nat[1] is ValueError,
+                         "refuses_only_bad_arch_or_identity_clash": (not arch_ok) or (enforced and clash),
+                         "refusal_changes_nothing": m.images == {cv: {ca: set([ex])}}}
+        exp = {cv: {ca: set([ex])}}
+        exp.setdefault(inputs["variant"], {}).setdefault(inputs["arch"], set()).add(new)
+        return nat, {"accepts_only_binary_known_arch": arch_ok,
+                     "accepts_only_without_identity_clash_from_1_1": (not enforced) or (not clash),
+                     "image_filed_in_addressed_cell": new in m.images.get(inputs["variant"], {}).get(inputs["arch"], ()),
+                     "nothing_else_written": m.images == exp}
+
+    def describe(self, inputs):
+        return "Images(version %s) holding %r under %s/%s; add(%r, %r, image %r, %s checksums)" % (
+            inputs["version"], inputs["existing"], inputs["cell"][0], inputs["cell"][1], inputs["variant"], inputs["arch"], inputs["new"],
+            "same" if inputs["same_cs"] else "different")
+
 class IdentifyObjEqDict(Contract):
     """identify_image(image) == identify_image(dict written by Image.serialize) for every valid image, and the identity is the
     7-tuple of UNIQUE_IMAGE_ATTRIBUTES with unified -> False and additional_variants -> [] defaults."""
@@ -750,5 +919,5 @@ def ast_only_writer(run, src, module, cls, attr, allowed):
 
 
 def contracts(src, T):
-    return [ImagesAdd(src, T, 0), ImagesAdd(src, T, 1), ImagesAdd(src, T, 2), IdentifyObjEqDict(src, T), Add11Refile(src, T), ImagesRoundTrip(src, T), ImagesEmptyCell(src, T)] + \
+    return [ImagesAdd(src, T, 0), ImagesAdd(src, T, 1), ImagesAdd(src, T, 2), IdentifyObjEqDict(src, T), Add11Refile(src, T), ImagesRoundTrip(src, T), ImagesEmptyCell(src, T), ImagesAddAny(src, T)] + \
         [ImageReaderValid(src, T, k, mode) for k in IMAGE_FIELDS for mode in ("corrupt", "delete")]
